@@ -30,6 +30,15 @@ I({"resp": 2, "sym": 0, "perm": 0, "hdrconc": 1, "domain": 0, "codec": 7}, {"rt"
 TL = list(range(4, 320)) + [508, 509, 510, 511, 764, 765, 766, 1200]
 I({"resp": 2, "sym": 1, "sympos": 1, "perm": 1, "hdrconc": 1, "domain": 0}, {"rt": ALLRT, "codec": [0, 2, 5], "plen": TL}, tiers=("thorough",))
 I({"resp": 2, "sym": 1, "sympos": 1, "perm": 1, "hdrconc": 1}, {"rt": NAMES, "codec": [0, 4], "plen": TL, "domain": [1, 2]}, tiers=("thorough",))
+# C2: limits inside the wrappers: the 255-record limit of A answers (encoded length 765..768 <-> payload 470..478 with
+# Base32, 566..572 with Base64u), the 253-byte TXT string boundary with an arbitrary byte (Raw: every byte value,
+# including the backslash TXT packing treats specially) on either side of it
+I({"resp": 2, "sym": 1, "sympos": 1, "perm": 0, "hdrconc": 1, "domain": 0, "rt": 7, "codec": 0}, {"plen": list(range(470, 479))}, unwind=20000)
+I({"resp": 2, "sym": 1, "sympos": 1, "perm": 0, "hdrconc": 1, "domain": 0, "rt": 7, "codec": 2}, {"plen": list(range(566, 573))}, unwind=20000, tiers=("thorough",))
+I({"resp": 2, "sym": 1, "sympos": 2, "perm": 0, "hdrconc": 1, "domain": 0, "rt": 2, "codec": 7, "plen": 300}, {"symat": [244, 245, 246, 247, 248]})
+I({"resp": 2, "sym": 2, "sympos": 2, "perm": 0, "hdrconc": 1, "domain": 0, "rt": 2, "codec": 7, "plen": 300}, {"symat": [245, 246]})
+I({"resp": 2, "sym": 1, "sympos": 2, "perm": 0, "hdrconc": 1, "domain": 0, "rt": 2, "codec": 7, "plen": 600}, {"symat": [497, 498, 499, 500, 501]}, tiers=("thorough",))
+I({"resp": 2, "sym": 1, "sympos": 2, "perm": 0, "hdrconc": 1, "domain": 0, "rt": 2, "codec": 5, "plen": 300}, {"symat": [214, 215, 216, 217]})
 # D: the downstream codec probe with the real check string, every type x codec x domain
 I({"resp": 5, "check": 1, "err": 0, "perm": 1}, {"rt": ALLRT, "codec": [0, 1, 2, 3, 4, 5], "domain": [0, 1, 2]})
 I({"resp": 5, "check": 1, "err": 0, "perm": 1}, {"rt": [0, 1, 2], "codec": [7], "domain": [0, 1, 2]})
